@@ -13,7 +13,8 @@ from ..runs import delivery_run
 ID = "C15"
 LEVEL = "exploration"
 RULE = (
-    "case = loop shape (self loop, 2-4 stage cycle, loop with side branch and fan-in, forward jump over a diamond) x "
+    "case = loop shape (self loop, 2-4 stage cycle, loop with side branch and fan-in - the side branch outside or inside the "
+    "loop body -, forward jump over a diamond) x "
     "requested iterations 0..limit+3 x _max_jumps in {absent,0,1,2,3,10} at workflow or stage level x (FIFO / shuffled "
     "delivery with withheld acks / one message held back / 2-4 worker threads interleaved at SQL-statement granularity). Oracles: effective jumps <= limit; limit reached => source "
     "TERMINAL and workflow final; per-iteration ledger counts of every stage of the independently computed re-arm set "
@@ -34,6 +35,8 @@ def _spec(case: dict) -> dict:
         sp = specs.jump_side_branch(times)
     elif shape == "fanin":
         sp = specs.jump_fanin_off_body(times)
+    elif shape == "inbody":
+        sp = specs.jump_from_sibling(times)
     elif shape == "forward":
         sp = specs.forward_jump()
         sp["stages"][0]["t"][0]["times"] = times
@@ -61,7 +64,7 @@ def gen_cases(tier: str, seed: int) -> list[dict]:
     cases = []
     reps = 1 if tier == "quick" else 10
     for _ in range(reps):
-        for shape in ("self", "loop", "side", "fanin", "forward"):
+        for shape in ("self", "loop", "side", "fanin", "forward", "inbody"):
             for mj in (None, 0, 1, 2, 3, 10):
                 limit = DEFAULT_LIMIT if mj is None else mj
                 for times in sorted({0, 1, 2, limit - 1, limit, limit + 1, limit + 3, 10**6} - {-1}):
@@ -137,6 +140,7 @@ def run_case(case: dict) -> dict:
             rows_by_group.setdefault(groups.of(a["seq"]), []).append(a)
     forward = case["shape"] == "forward"
     effective = 0
+    last_jump_seq = 0
     allowed = rearm_set(spec, target) | {src["ref"], target}
     for g in jump_groups:
         rows = rows_by_group.get(g, [])
@@ -145,6 +149,7 @@ def run_case(case: dict) -> dict:
         terminal = any(r["d"] == "TERMINAL" for r in rows)
         if started_target and not terminal:
             effective += 1
+            last_jump_seq = max([last_jump_seq] + [r["seq"] for r in rows])
             if not forward:
                 extra = {r for r in rearmed if r in ids and r not in allowed}
                 if extra:
@@ -192,6 +197,16 @@ def run_case(case: dict) -> dict:
                         want = {it: 0 for it in range(iters)}
                         if times <= limit:
                             want[iters - 1] = 1
+            elif ref in body and case["shape"] == "inbody":
+                # a parallel branch INSIDE the loop body (re-armed by every jump, possibly while it runs): at most
+                # once per iteration, and once in the last iteration if the loop ended well
+                if any(v > 1 for v in per.values()):
+                    out.append(viol("C15/per-iteration-count", f"{ref}.t{ti}: executions per iteration {per} (parallel branch inside the loop body)"))
+                # (its iteration label only advances when the jump found it started, so "ran in the last
+                # iteration" is decided by time: an execution that began after the last effective jump commit)
+                if times <= limit and not any(r["ref"] == ref and r["task"] == ti and r["seq"] >= last_jump_seq for r in run.ledger):
+                    out.append(viol("C15/parallel-branch-missing-in-last-iteration", f"{ref}.t{ti}: executions per iteration {per}, none after the last jump (seq {last_jump_seq}), {effective} jumps"))
+                continue
             elif ref in body:
                 # after the loop (depends only on the body): runs once, after the last iteration, if the loop ended well
                 total = sum(per.values())
